@@ -1,30 +1,61 @@
 // C10 (kernel: MpmcRingBuffer): the payload written by a producer is read by the consumer that pops
 // it, and slots are reused by later producers; every such pair of plain accesses must be ordered by
 // the declared memory orders of the slot sequence numbers / head / tail (no data race).
+// VF_KIND 0: one producer (3 emplaces: slot 0 is reused), one consumer (main, 2 pops + drain)
+// VF_KIND 1: two producers (1 emplace each), one consumer thread (2 pops), drain by main
 #include <dispenso/mpmc_ring_buffer.h>
 #include "vf.h"
-#include "race_probe.h"
+#include "probe.h"
 
-using Ring = dispenso::MpmcRingBuffer<RaceProbe, 2>;
+#ifndef VF_KIND
+#define VF_KIND 0
+#endif
+
+using Ring = dispenso::MpmcRingBuffer<Probe, 2>;
 static Ring R;
 
-static void producerA(void*) {
-  R.try_emplace(1);
-  R.try_emplace(2);
-}
-static void producerB(void*) { R.try_emplace(3); }
-static void consumer(void*) {
-  RaceProbe out;
-  R.try_pop(out);
-  R.try_pop(out);
+static void warm() {
+  VfAtomic noPreempt;  // one piece: keeps the detector's key tables constant (see probe.h)
+  warm_atomic(R.head_);
+  warm_atomic(R.tail_);
+  warm_atomic(R.slots_[0].seq);
+  warm_atomic(R.slots_[1].seq);
+  warm_probe(R.dataPtr(R.slots_[0]));
+  warm_probe(R.dataPtr(R.slots_[1]));
 }
 
+#if VF_KIND == 0
+static void producer(void*) {
+  R.try_emplace(1);
+  R.try_emplace(2);
+  R.try_emplace(3);
+}
 extern "C" void vf_main() {
+  warm();
+  vf_spawn(producer, nullptr);
+  Probe out{Probe::Private{}};
+  R.try_pop(out);
+  R.try_pop(out);
+  vf_join_all();
+  while (R.try_pop(out)) {
+  }
+}
+#else
+static void producerA(void*) { R.try_emplace(1); }
+static void producerB(void*) { R.try_emplace(2); }
+static void consumer(void*) {
+  Probe out{Probe::Private{}};
+  R.try_pop(out);
+  R.try_pop(out);
+}
+extern "C" void vf_main() {
+  warm();
   vf_spawn(producerA, nullptr);
   vf_spawn(producerB, nullptr);
   vf_spawn(consumer, nullptr);
   vf_join_all();
-  RaceProbe out;
+  Probe out{Probe::Private{}};
   while (R.try_pop(out)) {
   }
 }
+#endif
